@@ -70,6 +70,24 @@ theorem span_event_times_sorted (it : Iter Rat) (fuel s : Nat) (hD : 0 ≤ it.sp
     l.Pairwise (fun a b => a.time ≤ b.time) :=
   span_times_sorted it fuel s hD l h
 
+/-- **Order across the whole slider** (exact rationals, `span_duration ≥ 0`): all ticks and repeats
+come out in non-decreasing time order — span `s + 1` starts where span `s` ends — so over ℚ the final
+sort of `OsuSlider::new` is the identity on them; in `f64` the recomputed repeat time
+(`start + (span+1)·span_duration` instead of `span_start + span_duration`) can round differently,
+which is what the sort is for. -/
+theorem slider_event_times_sorted (it : Iter Rat) (fuel : Nat) (hD : 0 ≤ it.spanDur) (ds : List Rat)
+    (hds : spanTickDists ratArith it fuel = some ds) :
+    (midEvents ratArith it ds it.spanCount 0).Pairwise (fun a b => a.time ≤ b.time) ∧
+    ∀ e ∈ midEvents ratArith it ds it.spanCount 0,
+      it.start ≤ e.time ∧ e.time ≤ (tailEvent ratArith it).time := by
+  refine ⟨midEvents_sorted it fuel hD ds hds _ 0, fun e he => ?_⟩
+  have := midEvents_bounds it fuel hD ds hds _ 0 e he
+  simp only [Nat.cast_zero, zero_mul, add_zero, Nat.zero_add] at this
+  refine ⟨this.1, ?_⟩
+  have ht : (tailEvent ratArith it).time = it.start + (it.spanCount : Rat) * it.spanDur := by
+    simp [tailEvent, ratArith]
+  rw [ht]; exact this.2
+
 /-- The hypothesis is needed: with a negative span duration the times of a span decrease
 (ticks at 100 and 200 of 250 px, then the repeat). -/
 theorem span_event_times_sorted_needs_nonneg_duration :
